@@ -8,10 +8,17 @@ parameters, property values returned by a Python adapter, result rows — goes t
 two functions, see `pytrustfall/src/shim.rs`).  `==` on values is `Value.beq`, the model of
 `impl PartialEq for FieldValue` (C08): `Int64 n == Uint64 n`.
 
-Two statements of the property are FALSE on the code as written; each is kept visible, refuted by
-a concrete witness, and proved in `_partial` form under an explicit decidable guard:
-* F-24: a list mixing integers below and from `2^63` up does not survive the round trip;
-* F-25: a Python int outside `[-2^63, 2^64)` is not rejected but silently becomes a float.
+All statements are at full strength for the code *after* the repair of F-24 / F-25.
+
+History.  On the code before the repair two statements were false and were carried in `_partial`
+form with witness theorems (earlier revisions of this file):
+* F-24 `py_roundtrip_full_false`: `[Int64 1, Uint64 2^63]` ↦ Python `[1, 9223372036854775808]` ↦
+  `mixedList` error (the list check compared `Int64` vs `Uint64` discriminants); likewise
+  `[Uint64 5, Uint64 2^63]`.  Now `py_roundtrip` covers these lists (`mixed_ints_roundtrip`).
+* F-25 `py_out_of_range_rejected_full_false` / `py_out_of_range_becomes_float` /
+  `py_from_to_full_false`: `2^64 ↦ Float64` (key `0x43F0000000000000` = 1.8446744073709552e19),
+  `2^64 + 1 ↦` the same float, `-2^63 - 1 ↦ Float64(-9.223372036854775808e18)`, and `2^64` came
+  back to Python as a float.  Now `py_out_of_range_rejected` and `py_from_to` hold unguarded.
 The end-to-end part of C27 (rows of whole queries) is sampled by the harness, not proved.
 -/
 import TrustfallModel.Proofs.PyValue
@@ -21,45 +28,32 @@ open TF Value PyValue
 
 /-! ### Rust → Python → Rust -/
 
-/-- The list `[1, 2^63]` as the Rust engine holds it (`Int64(1)`, `Uint64(2^63)`): F-24 witness. -/
+/-- The list `[1, 2^63]` as the Rust engine holds it (`Int64(1)`, `Uint64(2^63)`): the former F-24
+witness. -/
 def mixedInts : Value := .list [.int64 1, .uint64 9223372036854775808]
 
-/-- FULL STATEMENT (false, F-24):
-`∀ v, noEnum v → ∃ p v', toPy v = some p ∧ fromPy p = .ok v' ∧ (v' == v) = true`
-— every enum-free value handed to Python and read back is equal to the original.
-Refuted: `[Int64 1, Uint64 2^63]` goes to the Python list `[1, 9223372036854775808]`, which the
-conversion back rejects ("elements of different (non-null) types … int vs int"). -/
-theorem py_roundtrip_full_false :
-    ¬ ∀ v : Value, noEnum v = true →
-        ∃ p v', toPy v = some p ∧ fromPy p = .ok v' ∧ (v' == v) = true := by
-  intro h
-  obtain ⟨p, v', h1, h2, _⟩ := h mixedInts rfl
-  have e1 : toPy mixedInts = some (.list [.int 1, .int 9223372036854775808]) := rfl
-  rw [e1] at h1
-  cases h1
-  have e2 : fromPy (.list [.int 1, .int 9223372036854775808]) = .error .mixedList := rfl
-  rw [e2] at h2
-  cases h2
+/-- Every enum-free value all of whose lists are of one kind (null / integer in either
+representation / float / string / boolean / list — the shape of every schema-typed value) converts
+to a Python object, converts back without error, and the result equals the original: signed and
+unsigned 64-bit integers (also mixed in one list), finite floats, strings, booleans, nulls, nested
+lists.  (`Uint64 n` with `n < 2^63` comes back as `Int64 n`, equal under `==`.)
 
-/-- The exact outcome for the witness, and the same for a list that is all-`Uint64` on the Rust
-side (`[Uint64 5, Uint64 2^63]`): the small element returns as `Int64`, so the list is rejected. -/
-theorem py_mixed_ints_rejected :
-    (∃ p, toPy mixedInts = some p ∧ fromPy p = .error .mixedList) ∧
-    (∃ p, toPy (.list [.uint64 5, .uint64 9223372036854775808]) = some p ∧
-      fromPy p = .error .mixedList) :=
-  ⟨⟨.list [.int 1, .int 9223372036854775808], rfl, rfl⟩,
-   ⟨.list [.int 5, .int 9223372036854775808], rfl, rfl⟩⟩
-
-/-- PARTIAL (guard `homogeneous v`: in every list, at every depth, the non-null elements come back
-from Python as one and the same variant — in particular no list mixes integers `< 2^63` with
-integers `≥ 2^63`).  Under the guard every enum-free value (null, signed/unsigned 64-bit integer,
-finite float, string, boolean, nested list) converts to a Python object, converts back without
-error, and the result equals the original (`Uint64 n` with `n < 2^63` comes back as `Int64 n`,
-equal under `==`). -/
-theorem py_roundtrip_partial (v : Value) (hE : noEnum v = true) (hH : homogeneous v = true) :
+`homogeneous` is a restriction of the domain, not of the code: a `FieldValue::List` mixing kinds
+(say an integer and a string) has no Trustfall type; its Python image is a list that the
+conversion refuses by design (see `py_reject_iff`, `mixed_kinds_still_rejected`). -/
+theorem py_roundtrip (v : Value) (hE : noEnum v = true) (hH : homogeneous v = true) :
     ∃ p v', toPy v = some p ∧ fromPy p = .ok v' ∧ (v' == v) = true := by
   obtain ⟨p, v', h1, h2, h3, _⟩ := rt v hE hH
   exact ⟨p, v', h1, h2, h3⟩
+
+/-- The former F-24 witnesses are inside the domain and survive the round trip exactly. -/
+theorem mixed_ints_roundtrip :
+    homogeneous mixedInts = true ∧
+    (∃ p, toPy mixedInts = some p ∧ fromPy p = .ok mixedInts) ∧
+    (∃ p, toPy (.list [.uint64 5, .uint64 9223372036854775808]) = some p ∧
+      fromPy p = .ok (.list [.int64 5, .uint64 9223372036854775808])) :=
+  ⟨by decide, ⟨.list [.int 1, .int 9223372036854775808], rfl, rfl⟩,
+   ⟨.list [.int 5, .int 9223372036854775808], rfl, rfl⟩⟩
 
 /-- Booleans stay booleans in both directions (`True` is not turned into `1`: `extract::<bool>`
 is tried before `extract::<i64>`). -/
@@ -68,145 +62,96 @@ theorem py_bool_stays_bool (b : Bool) :
 
 /-! ### Python → Rust: integers -/
 
-/-- Whenever a Python int converts to an integer value, it is that integer (no wrap-around, no
-truncation), in whichever of the two representations. -/
+/-- A Python int that is accepted converts to an integer value with the same mathematical value
+(no wrap-around, no truncation, no float), in whichever of the two representations. -/
 theorem py_int_faithful (z : Int) (v : Value) (h : fromPy (.int z) = .ok v) :
-    ∀ n, numVal v = some n → n = z := by
+    numVal v = some z := by
   simp only [fromPy] at h
   unfold fromInt at h
-  intro n hn
   by_cases h1 : fitsI64 z = true
   · simp [h1] at h; subst h
     simp only [fitsI64, Bool.and_eq_true, decide_eq_true_eq] at h1
-    simp [numVal, Int64.toInt_ofInt_of_le h1.1 h1.2] at hn
-    exact hn.symm
+    simp [numVal, Int64.toInt_ofInt_of_le h1.1 h1.2]
   · by_cases h2 : fitsU64 z = true
     · simp [h1, h2] at h; subst h
       simp only [fitsU64, Bool.and_eq_true, decide_eq_true_eq] at h2
       have : z.toNat < UInt64.size := by
         have := h2.2; simp [UInt64.size]; omega
-      simp [numVal, UInt64.toNat_ofNat_of_lt' this] at hn
+      simp [numVal, UInt64.toNat_ofNat_of_lt' this]
       omega
-    · cases h3 : intToF64Key z with
-      | none => simp [h1, h2, h3] at h
-      | some k => simp [h1, h2, h3] at h; subst h; simp [numVal] at hn
+    · simp [h1, h2] at h
 
-/-- Every Python int in `[-2^63, 2^64)` is accepted and converts to an integer value with the same
-mathematical value (signed when it fits, unsigned otherwise). -/
+/-- Every Python int in `[-2^63, 2^64)` is accepted (signed when it fits, unsigned otherwise). -/
 theorem py_int_in_range (z : Int) (hlo : -(2 ^ 63 : Int) ≤ z) (hhi : z < (2 ^ 64 : Int)) :
     ∃ v, fromPy (.int z) = .ok v ∧ numVal v = some z := by
-  have key : ∃ v, fromPy (.int z) = .ok v ∧ ∃ n, numVal v = some n := by
+  have key : ∃ v, fromPy (.int z) = .ok v := by
     simp only [fromPy]
     unfold fromInt
     by_cases h1 : fitsI64 z = true
-    · exact ⟨.int64 (Int64.ofInt z), by simp [h1], _, rfl⟩
+    · exact ⟨.int64 (Int64.ofInt z), by simp [h1]⟩
     · have h2 : fitsU64 z = true := by
         simp only [fitsI64, fitsU64, Bool.and_eq_true, decide_eq_true_eq] at h1 ⊢
         omega
-      exact ⟨.uint64 (UInt64.ofNat z.toNat), by simp [h1, h2], _, rfl⟩
-  obtain ⟨v, hv, n, hn⟩ := key
-  exact ⟨v, hv, by rw [hn, py_int_faithful z v hv n hn]⟩
+      exact ⟨.uint64 (UInt64.ofNat z.toNat), by simp [h1, h2]⟩
+  obtain ⟨v, hv⟩ := key
+  exact ⟨v, hv, py_int_faithful z v hv⟩
 
-/-- FULL STATEMENT (false, F-25):
-`∀ z, (z < -2^63 ∨ 2^64 ≤ z) → isOk (fromPy (.int z)) = false`
-— a Python int that fits neither `i64` nor `u64` is rejected.
-Refuted: `2^64` is accepted. -/
-theorem py_out_of_range_rejected_full_false :
-    ¬ ∀ z : Int, (z < -(2 ^ 63 : Int) ∨ (2 ^ 64 : Int) ≤ z) → isOk (fromPy (.int z)) = false := by
-  intro h
-  have := h (2 ^ 64) (Or.inr (Int.le_refl _))
-  have e : fromPy (.int (2 ^ 64)) = .ok (.float64 4895412794951729152) := rfl
-  rw [e] at this
-  cases this
-
-/-- What happens instead (F-25 witnesses): `2^64` becomes `Float64(1.8446744073709552e19)` (key
-`0x43F0000000000000`), `-2^63 - 1` becomes `Float64(-9.223372036854775808e18)`, and `2^64 + 1`
-becomes the same float as `2^64` (information is lost silently). -/
-theorem py_out_of_range_becomes_float :
-    fromPy (.int (2 ^ 64)) = .ok (.float64 4895412794951729152) ∧
-    fromPy (.int (-(2 ^ 63) - 1)) = .ok (.float64 (-4890909195324358656)) ∧
-    fromPy (.int (2 ^ 64 + 1)) = fromPy (.int (2 ^ 64)) := ⟨rfl, rfl, rfl⟩
-
-/-- PARTIAL (guard: even the float conversion overflows, i.e. `|z|` rounds to `≥ 2^1024`): such an
-int is rejected. -/
-theorem py_out_of_range_rejected_partial (z : Int)
-    (hr : z < -(2 ^ 63 : Int) ∨ (2 ^ 64 : Int) ≤ z) (hg : (intToF64Key z).isNone = true) :
-    isOk (fromPy (.int z)) = false := by
-  have h := (rej (.int z)).1
+/-- Every Python int outside `[-2^63, 2^64)` is rejected with an error (it is not rounded to a
+float, not wrapped, not truncated). -/
+theorem py_out_of_range_rejected (z : Int)
+    (hr : z < -(2 ^ 63 : Int) ∨ (2 ^ 64 : Int) ≤ z) : fromPy (.int z) = .error .unsupported := by
   have h1 : fitsI64 z = false := by
     simp only [fitsI64, Bool.and_eq_false_iff, decide_eq_false_iff_not]; omega
   have h2 : fitsU64 z = false := by
     simp only [fitsU64, Bool.and_eq_false_iff, decide_eq_false_iff_not]; omega
-  simpa [rejects, h1, h2, hg] using h
-
-/-- An out-of-range int never turns into a (wrong) integer: it is rejected or becomes a float. -/
-theorem py_out_of_range_not_an_integer (z : Int) (v : Value)
-    (hr : z < -(2 ^ 63 : Int) ∨ (2 ^ 64 : Int) ≤ z) (h : fromPy (.int z) = .ok v) :
-    numVal v = none := by
-  cases hn : numVal v with
-  | none => rfl
-  | some n =>
-    have e := py_int_faithful z v h n hn
-    subst e
-    cases v <;> simp [numVal] at hn
-    · rename_i i
-      have h1 := Int64.toInt_lt i; have h2 := Int64.le_toInt i; omega
-    · rename_i u
-      have h3 := UInt64.toNat_lt u; omega
+  simp [fromPy, fromInt, h1, h2]
 
 /-! ### Python → Rust: what is rejected -/
 
 /-- The conversion fails exactly on the objects described by `rejects` (a Python-side predicate that
-does not mention `fromPy`): non-finite floats, unsupported objects, ints too large even for a float,
-lists with such an element, and lists whose non-`None` elements convert to different variants
-(where — F-24 — ints `< 2^63` and ints `≥ 2^63` count as different, and — F-25 — an int outside
-the 64-bit ranges counts as a float). -/
+does not mention `fromPy`): non-finite floats, unsupported objects, ints outside `[-2^63, 2^64)`,
+lists with such an element, and lists whose non-`None` elements are of different kinds
+(`bool` / `int` / `float` / `str` / `list`; all ints are one kind). -/
 theorem py_reject_iff (p : Py) : isOk (fromPy p) = false ↔ rejects p = true := by
   rw [(rej p).1]; simp
 
+/-- Mixing kinds in one list is still refused (int with float, int with str, bool with int), and so
+are lists containing an out-of-range int (it is no longer a float that could blend in). -/
+theorem mixed_kinds_still_rejected :
+    fromPy (.list [.int 1, .float 4609434218613702656]) = .error .mixedList ∧
+    fromPy (.list [.int 1, .str [97]]) = .error .mixedList ∧
+    fromPy (.list [.bool true, .int 1]) = .error .mixedList ∧
+    fromPy (.list [.int 18446744073709551616, .float 4609434218613702656]) = .error .unsupported :=
+  ⟨rfl, rfl, rfl, rfl⟩
+
 /-! ### Python → Rust → Python -/
 
-/-- FULL STATEMENT (false, F-25): `∀ p v, fromPy p = .ok v → toPy v = some p` — an accepted Python
-object is handed back unchanged.  Refuted: the int `2^64` comes back as a float. -/
-theorem py_from_to_full_false : ¬ ∀ p v, fromPy p = .ok v → toPy v = some p := by
-  intro h
-  have := h (.int (2 ^ 64)) (.float64 4895412794951729152) rfl
-  simp [toPy] at this
+/-- Every accepted Python object (None, bool, int, finite float, str, nested list) is handed back
+unchanged — bools as bools, ints as the same int, lists element by element. -/
+theorem py_from_to (p : Py) (v : Value) (h : fromPy p = .ok v) : toPy v = some p := back p v h
 
-/-- PARTIAL (guard `intsInRange p`: every int inside lies in `[-2^63, 2^64)`): an accepted Python
-object (None, bool, int, finite float, str, nested list) is handed back unchanged — bools as bools,
-ints as the same int, lists element by element. -/
-theorem py_from_to_partial (p : Py) (v : Value) (hg : intsInRange p = true)
-    (h : fromPy p = .ok v) : toPy v = some p := back p hg v h
-
-/-! Non-vacuity: the guards admit mixed-representation and nested values; the reject predicate is
-inhabited on both sides. -/
-example : noEnum (.list [.uint64 18446744073709551615, .null, .uint64 9223372036854775808]) = true ∧
-    homogeneous (.list [.uint64 18446744073709551615, .null, .uint64 9223372036854775808]) = true := by
-  decide
+/-! Non-vacuity: the domain admits mixed-representation and nested values and excludes mixed kinds;
+the reject predicate is inhabited on both sides. -/
+example : noEnum (.list [.uint64 18446744073709551615, .null, .int64 (-1)]) = true ∧
+    homogeneous (.list [.uint64 18446744073709551615, .null, .int64 (-1)]) = true := by decide
 example : homogeneous (.list [.list [.int64 1], .list [.uint64 9223372036854775808], .list []]) = true := by
   decide
-example : homogeneous mixedInts = false := by decide
+example : homogeneous (.list [.int64 1, .string [97]]) = false := by decide
+example : homogeneous (.list [.int64 1, .float64 0]) = false := by decide
 example : rejects (.list [.int 1, .str [97]]) = true := by decide
 example : rejects (.list [.none, .int 1, .none, .int (-5)]) = false := by decide
-example : rejects (.list [.int 1, .int 9223372036854775808]) = true := by decide
-example : intsInRange (.list [.int (-9223372036854775808), .list [.int 18446744073709551615]]) = true := by
-  decide
-set_option exponentiation.threshold 1100 in
-example : (intToF64Key (2 ^ 1024)).isNone = true := by decide +kernel
+example : rejects (.list [.int 1, .int 9223372036854775808]) = false := by decide
+example : rejects (.int 18446744073709551616) = true := by decide
+example : rejects (.int (-9223372036854775809)) = true := by decide
 
 end TF.C27
 
-#print axioms TF.C27.py_roundtrip_full_false
-#print axioms TF.C27.py_mixed_ints_rejected
-#print axioms TF.C27.py_roundtrip_partial
+#print axioms TF.C27.py_roundtrip
+#print axioms TF.C27.mixed_ints_roundtrip
 #print axioms TF.C27.py_bool_stays_bool
 #print axioms TF.C27.py_int_faithful
 #print axioms TF.C27.py_int_in_range
-#print axioms TF.C27.py_out_of_range_rejected_full_false
-#print axioms TF.C27.py_out_of_range_becomes_float
-#print axioms TF.C27.py_out_of_range_rejected_partial
-#print axioms TF.C27.py_out_of_range_not_an_integer
+#print axioms TF.C27.py_out_of_range_rejected
 #print axioms TF.C27.py_reject_iff
-#print axioms TF.C27.py_from_to_full_false
-#print axioms TF.C27.py_from_to_partial
+#print axioms TF.C27.mixed_kinds_still_rejected
+#print axioms TF.C27.py_from_to
